@@ -107,8 +107,21 @@ def gen_matrix(rng, N, alphabet=None, symmetric=True, tie_free=False):
     return D
 
 
-def gen_instance(rng, nmax=10, nu=0, m=0, tie_free=False, kinds=("feat", "mat", "lattice")):
+def gen_instance(rng, nmax=10, nu=0, m=0, tie_free=False, kinds=("feat", "mat", "lattice", "feat", "mat", "lattice", "tiny")):
     kind = rng.choice(kinds)
+    if kind == "tiny":
+        # features of very small magnitude: costs of order 1e-22 under squared metrics (the algorithms are order-only,
+        # so the scale must not matter)
+        n = rng.randint(2, nmax)
+        labels = gen_labels(rng, n)
+        metric = rng.choice(["squared_euclidean", "euclidean", "manhattan", "log_squared_euclidean"])
+        sc = 10.0 ** rng.choice([-9, -11, -12])
+        dim = rng.randint(1, 3)
+        X = [[sc * rng.uniform(-10, 10) for _ in range(dim)] for _ in range(n + nu + m)]
+        D = metric_matrix(metric, X)
+        if not tie_free or len(set(D[a][b] for a in range(n + nu) for b in range(a + 1, n + nu))) == (n + nu) * (n + nu - 1) // 2:
+            return Instance("tiny", X, labels, D, nu, m, metric)
+        kind = "feat"
     n = rng.randint(2, nmax)
     labels = gen_labels(rng, n)
     if kind == "mat":
@@ -180,9 +193,22 @@ def impl_prim(inst):
     return node_state(opf.subgraph)
 
 
-def impl_fit(inst, cls=None):
+_REUSE = {}
+
+
+def impl_fit(inst, cls=None, reuse=False):
+    """reuse=True: train an object that has already been trained on other data (same metric / same branch) -
+    the property is about every training, not only the first one of an object."""
     from opfython.models.supervised import SupervisedOPF
     opf, X, I = make_model(inst, cls or SupervisedOPF)
+    if reuse:
+        key = (cls or SupervisedOPF, inst.metric, inst.X is None)
+        if key in _REUSE:
+            old = _REUSE[key]
+            if inst.X is None:
+                old.pre_distances = opf.pre_distances
+            opf = old
+        _REUSE[key] = opf
     n = inst.n
     opf.fit(X[:n].copy(), np.array(inst.labels), None if I is None else I[:n])
     return opf, node_state(opf.subgraph)
